@@ -28,7 +28,8 @@ CONSTANTS Scope,        \* "boundary" | "small" | "trace"
           SmallMaxN,    \* largest content length of scope "small"
           SmallVersions, \* requestable versions of scope "small"
           VSels,        \* requested-version selectors of scope "boundary": subset of {"none","same","less","more"}
-          Variants      \* sequence of <<micro, boost>> combinations of scope "boundary"
+          Variants,     \* sequence of <<micro, boost>> combinations of scope "boundary"
+          Slim          \* TRUE: scope "boundary" without requested byte mode, without eci, lengths at / just above the capacity only
 
 NoVersion == 99
 Classes == {"num", "alnum", "kanji", "l1", "x8", "hanzi"}
@@ -98,7 +99,7 @@ MaxFitT(v, e, m) == MaxFitTab[m][v+4][e]
 ValidN(cls, n) == n >= 1 /\ (cls \in {"kanji", "hanzi"} => n % 2 = 0) /\ (cls = "x8" => n >= 2)
 
 PickBoundary ==
-  \E cls \in Classes : \E vb \in BVersions : \E eb \in {"L", "M", "Q", "H", "-"} : \E mr \in {"auto", "byte"} : \E eci \in BOOLEAN :
+  \E cls \in (IF Slim THEN {"num", "alnum", "kanji", "l1"} ELSE Classes) : \E vb \in BVersions : \E eb \in {"L", "M", "Q", "H", "-"} : \E mr \in (IF Slim THEN {"auto"} ELSE {"auto", "byte"}) : \E eci \in (IF Slim THEN {FALSE} ELSE BOOLEAN) :
     LET m == IF cls = "hanzi" THEN "hanzi" ELSE IF mr = "byte" THEN "byte" ELSE AutoMode(cls)
         extra == IF eci /\ m = "byte" /\ cls = "x8" THEN 12 ELSE 0
         n0 == MaxFitT(vb, eb, m)
@@ -106,10 +107,10 @@ PickBoundary ==
     IN /\ HasLevel(vb, eb) /\ n0 >= 1
        /\ (mr = "byte" => cls \in {"num", "alnum", "kanji"})           \* requested byte mode for content with a more compact mode
        /\ (eci => cls \in {"x8", "l1", "num"})                          \* ECI matters for byte content; "num" probes the Micro exclusion
-       /\ \E d \in {-1, 0, 1} :
+       /\ \E d \in (IF Slim THEN {0, 1} ELSE {-1, 0, 1}) :
             LET n == n1 + (IF m \in {"kanji", "hanzi"} THEN 2 * d ELSE d) IN
             /\ ValidN(cls, n)
-            /\ \E vsel \in VSels : \E esel \in {"none", "same"} : \E k \in 1..Len(Variants) :
+            /\ \E vsel \in VSels : \E esel \in (IF Slim THEN {"same"} ELSE {"none", "same"}) : \E k \in 1..Len(Variants) :
                  LET vr == CASE vsel = "none" -> NoVersion [] vsel = "same" -> vb [] vsel = "less" -> vb - 1 [] vsel = "more" -> vb + 1
                      er == IF esel = "none" THEN "-" ELSE eb
                  IN /\ (vr = NoVersion \/ (vr >= -3 /\ vr <= 40))
